@@ -259,6 +259,40 @@ theorem shake128_eq_spec (msg : List UInt8) (outlen : Nat) :
   rw [h.2.2.2.2.2.2.2.2.1, h.2.2.2.2.2.2.2.2.2.1, h.2.2.2.2.2.2.2.2.2.2.1, h.2.2.2.2.2.2.2.2.2.2.2.2.2.2.1, genF_eq]
   exact SqiProofs.Sponge.oneShot_eq_spec Fips202.keccakF 168 (by decide) (by decide) (by decide) 0x1F msg outlen
 
+/-- **the one-shot `shake256(output, outlen, input, inlen)` as re-extracted from fips202.c** (statement sequence, rate macros,
+    the `shake256_absorb` / `shake256_squeezeblocks` wrappers, `keccak_absorb`, `keccak_squeezeblocks`, `store64`, `load64`, the copy loop,
+    and the permutation — all generated from the C text): it terminates, writes exactly FIPS 202 SHAKE256(msg) truncated to `outlen` at
+    `output … output + outlen` and leaves every other byte of the buffer unchanged — for every message, every output length and
+    whatever the uninitialised stack / heap memory (`s0`, `t0`, `ta`, loop counters) contains -/
+theorem gen_shake256_oneshot_eq_spec (fuel : Nat) (h : List UInt8) (hoff outlen : Nat) (msg : List UInt8)
+    (s0 : Fips202.State) (t0 : List UInt8) (ia : Nat) (ta : List UInt8) (iq1 iq2 ic : Nat)
+    (ht0 : t0.length = SqiGen.Sponge.shake256.tlen) (hta : ta.length = 200) (hl : hoff + outlen ≤ h.length)
+    (hf : msg.length + outlen + 200 < fuel) :
+    ∃ h', SqiGen.Sponge.shake256.run SqiGen.Keccak.keccakF fuel h hoff outlen msg msg.length s0 t0 ia ta iq1 iq2 ic = some h' ∧
+      SqiProofs.SpongeGen.Written h h' hoff outlen (Fips202.shake256 msg outlen) := by
+  have hs := shake256_eq_spec msg outlen
+  have hp := extracted_params
+  rw [hp.1, hp.2.1, hp.2.2.1, hp.2.2.2.2.2.2.1] at hs
+  rw [← hs]
+  exact SqiProofs.SpongeGen.shake256_oneshot_eq SqiGen.Keccak.keccakF fuel h hoff outlen msg s0 t0 ia ta iq1 iq2 ic ht0 hta hl hf
+
+/-- **the one-shot `shake128(output, outlen, input, inlen)` as re-extracted from fips202.c** (statement sequence, rate macros,
+    the `shake128_absorb` / `shake128_squeezeblocks` wrappers, `keccak_absorb`, `keccak_squeezeblocks`, `store64`, `load64`, the copy loop,
+    and the permutation — all generated from the C text): it terminates, writes exactly FIPS 202 SHAKE128(msg) truncated to `outlen` at
+    `output … output + outlen` and leaves every other byte of the buffer unchanged — for every message, every output length and
+    whatever the uninitialised stack / heap memory (`s0`, `t0`, `ta`, loop counters) contains -/
+theorem gen_shake128_oneshot_eq_spec (fuel : Nat) (h : List UInt8) (hoff outlen : Nat) (msg : List UInt8)
+    (s0 : Fips202.State) (t0 : List UInt8) (ia : Nat) (ta : List UInt8) (iq1 iq2 ic : Nat)
+    (ht0 : t0.length = SqiGen.Sponge.shake128.tlen) (hta : ta.length = 200) (hl : hoff + outlen ≤ h.length)
+    (hf : msg.length + outlen + 200 < fuel) :
+    ∃ h', SqiGen.Sponge.shake128.run SqiGen.Keccak.keccakF fuel h hoff outlen msg msg.length s0 t0 ia ta iq1 iq2 ic = some h' ∧
+      SqiProofs.SpongeGen.Written h h' hoff outlen (Fips202.shake128 msg outlen) := by
+  have hs := shake128_eq_spec msg outlen
+  have hp := extracted_params
+  rw [hp.2.2.2.2.2.2.2.2.1, hp.2.2.2.2.2.2.2.2.2.1, hp.2.2.2.2.2.2.2.2.2.2.1, hp.2.2.2.2.2.2.2.2.2.2.2.2.2.2.1] at hs
+  rw [← hs]
+  exact SqiProofs.SpongeGen.shake128_oneshot_eq SqiGen.Keccak.keccakF fuel h hoff outlen msg s0 t0 ia ta iq1 iq2 ic ht0 hta hl hf
+
 /-- the incremental API (`shake256_inc_init/absorb/finalize/squeeze`), for any chunking of the message and any split
     of the output request, produces FIPS 202 SHAKE256 of the concatenation, truncated to the total request -/
 theorem shake256_inc_eq_spec (chunks : List (List UInt8)) (reqs : List Nat) :
